@@ -27,7 +27,7 @@ MANIFEST = dict(
     category='exploration', design_ref='DESIGN.md §3 C18',
     technique='exhaustive enumeration of a fault alphabet x positions (single faults; all ordered pairs) x check selections on the real validator vs reference checks; add-rejection and CLI exit status cross-checked',
     text='A valid base lexicon (4 entries, 5 senses, 4 synsets, reciprocated relations) is damaged by each of ~40 faults (duplicate id of every kind, sense to a missing synset, dangling sense/synset relation target incl. a hypernym to a missing synset, synset relation targeting a sense, empty synset, entry without senses, redundant sense, redundant entry, repeated ILI, proposed ILI without definition, spurious ILIDefinition, blank definition/example, repeated definition, invalid relation type for each relation table, redundant relation with and without dc:type, missing reverse, hypernym part-of-speech clash, self-loops) at every applicable position, singly and (thorough) in every ordered pair. validate() must return (never raise) for every selection (each of the 18 codes, E, W, both, pairs of codes), the report keys must be exactly the selected codes in table order, and for every code the set of reported entities and their context must equal the reference check. Whenever E204 or E401 is reported, add_lexical_resource must raise and leave the exact table dump unchanged; the CLI exit status must be 1 exactly when some item is reported.',
-    note='Reference checks are written from the module table and the check docstrings of wn.validate; REVERSE_RELATIONS is additionally required to be an involution.',
+    note='Reference checks are written from the module table and the check docstrings of wn.validate; the relation inventories and the table of reverse relations are read from docs/api/wn.constants.rst (the constants of the library must equal them); REVERSE_RELATIONS is additionally required to be an involution.',
 )
 
 def documented_inventories():
@@ -53,7 +53,28 @@ def documented_inventories():
     return {k: v for k, v in out.items() if v}
 
 
+def documented_reverse_relations():
+    """REVERSE_RELATIONS as documented (a Python dict literal in docs/api/wn.constants.rst); None if absent"""
+    import ast
+    import re
+    from pathlib import Path
+    p = Path(wn.__file__).resolve().parent.parent / 'docs' / 'api' / 'wn.constants.rst'
+    if not p.exists():
+        return None
+    m = re.search(r'\.\. data:: REVERSE_RELATIONS.*?(\{.*?\})', p.read_text(), flags=re.S)
+    try:
+        return dict(ast.literal_eval(m.group(1))) if m else None
+    except (ValueError, SyntaxError):
+        return None
+
+
+K_DOC_REVERSE = 'constants:documented-reverse-relations-also-pertainym-not-in-REVERSE_RELATIONS'
 DOC = documented_inventories()
+# the W404 reference uses the *documented* table of reverse relations (the library's own only if none is documented)
+REVERSE_D = documented_reverse_relations() or dict(REVERSE_RELATIONS)
+# entries that are documented but that the library does not have fall under a recorded finding; the W404
+# reference leaves them out so that nothing else is absorbed
+REVERSE_W404 = {k: v for k, v in REVERSE_D.items() if k not in ('also', 'pertainym') or k in REVERSE_RELATIONS}
 SENSE_RELATIONS_D = DOC.get('SENSE_RELATIONS', set(SENSE_RELATIONS))
 SENSE_SYNSET_RELATIONS_D = DOC.get('SENSE_SYNSET_RELATIONS', set(SENSE_SYNSET_RELATIONS))
 SYNSET_RELATIONS_D = DOC.get('SYNSET_RELATIONS', set(SYNSET_RELATIONS))
@@ -224,8 +245,8 @@ def reference(lex):
     regular |= {(ss['id'], r['relType'], r['target']) for ss, r in ssrels if r['target'] in ssids}
     R['W404'] = {}
     for (src, typ, tgt) in regular:
-        if typ in REVERSE_RELATIONS and (tgt, REVERSE_RELATIONS[typ], src) not in regular:
-            R['W404'].setdefault(tgt, set()).add((REVERSE_RELATIONS[typ], src))
+        if typ in REVERSE_W404 and (tgt, REVERSE_W404[typ], src) not in regular:
+            R['W404'].setdefault(tgt, set()).add((REVERSE_W404[typ], src))
     pos = {ss['id']: ss.get('partOfSpeech') for ss in syns}
     R['W501'] = {}
     for ss, r in ssrels:
@@ -408,6 +429,13 @@ def run(tier, seed, jobs=None):
         if name in DOC and set(have) != DOC[name]:
             problems.append(f'wn.constants.{name} differs from the documented inventory: missing '
                             f'{sorted(DOC[name] - set(have))}, undocumented {sorted(set(have) - DOC[name])}')
+    delta = sorted(set(REVERSE_RELATIONS.items()) ^ set(REVERSE_D.items()))
+    from .. import findings
+    known = findings.load().get(PROP, {})
+    if delta == [('also', 'also'), ('pertainym', 'pertainym')] and K_DOC_REVERSE in known:
+        print(f'KNOWN-FINDING: property={PROP} key={K_DOC_REVERSE} {known[K_DOC_REVERSE]}')
+    elif delta:
+        problems.append(f'wn.constants.REVERSE_RELATIONS differs from the documented table: {delta[:6]}')
     unknown = sorted(k for k in REVERSE_RELATIONS if k not in set(SENSE_RELATIONS) | set(SYNSET_RELATIONS))
     if unknown:
         problems.append(f'REVERSE_RELATIONS mentions relation types in no inventory: {unknown}')
